@@ -8,6 +8,7 @@ import (
 	"os"
 	"path/filepath"
 	"regexp"
+	"runtime/debug"
 	"sort"
 	"strings"
 	"time"
@@ -51,10 +52,12 @@ func main() {
 	verbose := flag.Bool("v", false, "verbose")
 	mapSched := flag.Int("mapsched", -1, "map-iteration schedule mode: max deviating sites (-1 = off)")
 	timeout := flag.Int("solver-timeout", 20000, "per query ms")
+	tier := flag.Int("tier", 0, "value returned by vf_Tier (0 quick, 1 thorough)")
 	liaSolver := flag.String("lia-solver", "z3", "solver for the integer view (z3|cvc5)")
 	crossSolver := flag.String("cross-solver", "cvc5", "second solver (one-shot)")
 	flag.Parse()
 
+	debug.SetGCPercent(800)
 	t0 := time.Now()
 	overlay := map[string][]byte{}
 	absPkg := filepath.Join(*repo, *pkgDir)
@@ -133,6 +136,7 @@ func main() {
 	eng.Trace = *trace
 	eng.Verbose = *verbose
 	eng.SolverTimeout = *timeout
+	eng.Tier = *tier
 	eng.LIASolver = *liaSolver
 	eng.CrossSolver = *crossSolver
 	if *mapSched >= 0 {
